@@ -67,7 +67,12 @@ func startWS() (*wsServer, error) {
 			wsErr = err
 			return
 		}
-		dir, err := os.MkdirTemp("", "verif-ws-")
+		// inside the run's scratch directory, which the parent removes
+		base := ""
+		if out := os.Getenv("VERIF_OUT"); out != "" {
+			base = filepath.Dir(out)
+		}
+		dir, err := os.MkdirTemp(base, "verif-ws-")
 		if err != nil {
 			wsErr = err
 			return
